@@ -115,6 +115,7 @@ S["C10"] = dict(title="The read routine never wedges: failed connections are lef
 S["C12"] = dict(title="Close and Disconnect end the client from any state, promptly and for good", technique=TECH+"; cooperative goroutine model with deadlock detection", harnesses=[
     H("verifH_C12_closeduringhandshake", "L12.b Close/Disconnect issued while the handshake reads CONNACK: both return, no goroutine left, signals and semaphores final", reach=("closed",)),
     H("verifH_C12_states", "L12.a/c Close/Disconnect from each sequential state, then every method reports ErrClosed; termCallbacks", reach=("closed",)),
+    H("verifH_C12_concurrent", "bounded schedule exploration: Close || Close/Disconnect(nil)/Disconnect(closed quit) || a writer in flight (Write is a scheduling point), <= k preemptions: all return, semaphores closed once, signals final, DISCONNECT last", T({"preempt":1}), T({"preempt":2}, time_sec=2400, maxpaths=3000000), ("end","interrupted")),
   ],
   assumptions=["goroutines are scheduled cooperatively: switches at channel operations, mutexes, explicit yields; interleavings are forked at each point where more than one goroutine can run"],
   bounds={"quick":"2-3 goroutines, states {never connected, down, online, closed}, quit {nil, closed}","thorough":"same"},
